@@ -53,6 +53,10 @@ ASSUMPTIONS = [
     "accepted as the shift (the docstring does not say); the bound side is always required",
     "second-order Taylor polynomials are requested with symmetric Hessian approximations and for scalar "
     "functions following the float / 1-D gradient convention",
+    "ConvexLinearApprox: a negative partial derivative w.r.t. a variable whose reference value is 0 is outside the domain "
+    "(reciprocal variable undefined); with negative partials only definition-independent facts are required: value and "
+    "gradient agree with the operand at the expansion point, and away from it (and from 0) the Jacobian is the derivative "
+    "(complex step through the function itself) of what the function evaluates",
     "ConstraintAggregation is used with one constraint name (with several names all but the first output are empty)",
 ]
 
@@ -799,6 +803,10 @@ def convex_linear(p, ctx, f, tree, env, jac_ok):
         ctx.cls("convex_skipped_partial_near_sign_threshold")
         return None
     negative = bool(np.any(sel < 0))
+    if negative and np.any(x0[mask][np.any(sel < 0, axis=0)] == 0.0):
+        # the reciprocal variable 1/x of a convex linearisation is undefined at a zero reference value
+        ctx.cls("convex_skipped_negative_partial_at_zero_reference")
+        return None
     g = ConvexLinearApprox(x0, f, None if p["mask"] is None else mask)
     check_value(ctx, "convex_at_point", g, x0, m, v0, TOL * s0, "convex linearisation at the expansion point")
     full = True
@@ -820,7 +828,7 @@ def convex_linear(p, ctx, f, tree, env, jac_ok):
             ref_j[:, mask] = sel
             check_value(ctx, "convex_formula", g, x, m, vm + sel @ step, TOL * s, "convex linearisation without negative partial derivative")
             check_jac(ctx, "convex_formula", g, x, m, n, ref_j, TOL * s, "convex linearisation without negative partial derivative")
-        elif np.all(np.abs((x - x0)[mask]) >= 0.25):
+        elif np.all(np.abs((x - x0)[mask]) >= 0.25) and np.all(np.abs(x[mask]) >= 0.25):
             # the Jacobian must be the derivative of what the function evaluates (complex step through
             # the function itself; exact to rounding on rational functions)
             raw = g.jac(x)
